@@ -198,9 +198,13 @@ pub broadcast proof fn axiom_ip6_len(a: std::net::Ipv6Addr)
 {}
 
 pub broadcast group group_trusted {
-    axiom_slice_eq, axiom_slice_obeys, axiom_starts_with_str, axiom_str_get_from, axiom_slice_ext, axiom_bytes_from_vec, axiom_bytes_from_vec_obeys, axiom_vec_len_bound, axiom_bm_len_bound, axiom_arr_eq, axiom_arr_obeys, axiom_vec_eq, axiom_vec_obeys, axiom_string_str_eq, axiom_string_str_obeys, axiom_string_refstr_eq, axiom_string_refstr_obeys, axiom_lossy_v4, axiom_slice_ord, axiom_slice_pord_obeys,
-    axiom_vecu8_ord, axiom_vecu8_ord2, axiom_vecu8_borrow, axiom_vecu8_ext,
+    axiom_slice_eq, axiom_slice_obeys, axiom_starts_with_str, axiom_str_get_from, axiom_bytes_from_vec, axiom_bytes_from_vec_obeys, axiom_vec_len_bound, axiom_bm_len_bound, axiom_arr_eq, axiom_arr_obeys, axiom_vec_eq, axiom_vec_obeys, axiom_string_str_eq, axiom_string_str_obeys, axiom_string_refstr_eq, axiom_string_refstr_obeys, axiom_lossy_v4, axiom_slice_ord, axiom_slice_pord_obeys,
+    axiom_vecu8_ord, axiom_vecu8_ord2, axiom_vecu8_borrow,
     axiom_contains_borrowed, axiom_maps_borrowed, axiom_removed_borrowed, axiom_vecu8_cmp,
     axiom_vec_ref, axiom_str_ref, axiom_vec_of, axiom_vec_from_str, axiom_vec_from_slice, axiom_vec_from_str_obeys, axiom_vec_from_slice_obeys, axiom_array_ref,
     axiom_ip4_len, axiom_ip6_len,
 }
+
+/// extensionality axioms have two independent triggers (quadratic instantiation): they are kept out of the default group and
+/// used only by the small modules that need them (lem: laws of cmap; node_id: AsRef)
+pub broadcast group group_trusted_ext { axiom_slice_ext, axiom_vecu8_ext }
